@@ -263,9 +263,22 @@ static std::string colliding_key(uint64_t bits, int blocks)
 		s += ((bits >> i) & 1) ? "B@" : "Aa";
 	return s;
 }
+// a copy of the key at a chosen alignment (address % 4 == off)
+struct AlignedKey {
+	std::vector<char> buf;
+	const char *p;
+	AlignedKey(const std::string &k, unsigned off) : buf(k.size() + 16)
+	{
+		uintptr_t base = (uintptr_t)buf.data();
+		size_t pad = (4 - base % 4) % 4 + off % 4;
+		memcpy(buf.data() + pad, k.c_str(), k.size() + 1);
+		p = buf.data() + pad;
+	}
+};
 struct OBJ {
 	Ctx &ctx;
 	json_object *o;
+	unsigned align_salt = 0;
 	std::vector<std::pair<std::string, json_object *>> m;
 	std::vector<std::string> pool;
 	std::vector<char *> const_keys; // stable storage for CONSTANT_KEY adds
@@ -291,7 +304,8 @@ struct OBJ {
 		if (json_object_object_length(o) != (int)m.size())
 			ctx.fail("length", "object_length " + str(json_object_object_length(o)) + " model " + str(m.size()) + " after " + trace.substr(trace.size() > 200 ? trace.size() - 200 : 0));
 		json_object *v = (json_object *)(intptr_t)-5;
-		int found = json_object_object_get_ex(o, k.c_str(), &v);
+		AlignedKey ak(k, align_salt++);
+		int found = json_object_object_get_ex(o, ak.p, &v);
 		int idx = find(k);
 		if ((found != 0) != (idx >= 0))
 			ctx.fail("lookup", "get_ex(" + quote(k, 40) + ") says " + (found ? "present" : "absent") + ", model says " + (idx >= 0 ? "present" : "absent"));
@@ -373,9 +387,10 @@ struct OBJ {
 		int size0 = json_object_get_object(o)->size;
 		int r;
 		std::string what;
+		AlignedKey ak(k, align_salt += 1 + (unsigned)val % 3);
 		if (variant == 1 && idx < 0)
 		{
-			r = json_object_object_add_ex(o, k.c_str(), v, JSON_C_OBJECT_ADD_KEY_IS_NEW);
+			r = json_object_object_add_ex(o, ak.p, v, JSON_C_OBJECT_ADD_KEY_IS_NEW);
 			what = "add_ex(KEY_IS_NEW) ";
 		}
 		else if (variant == 2)
@@ -388,7 +403,7 @@ struct OBJ {
 		}
 		else
 		{
-			r = json_object_object_add(o, k.c_str(), v);
+			r = json_object_object_add(o, ak.p, v);
 			what = "add ";
 		}
 		log(what + quote(k, 30) + (idx >= 0 ? " (replace)" : ""));
@@ -409,7 +424,8 @@ struct OBJ {
 	void del(const std::string &k)
 	{
 		int idx = find(k);
-		json_object_object_del(o, k.c_str());
+		AlignedKey ak(k, align_salt += 3);
+		json_object_object_del(o, ak.p);
 		log("del " + quote(k, 30) + (idx < 0 ? " (absent)" : ""));
 		if (idx >= 0)
 		{
@@ -489,7 +505,11 @@ static void run_obj(Choices &c, Ctx &ctx)
 		case 0: k = ""; break;
 		case 1: k = colliding_key(c.range(0, (1u << blocks) - 1), blocks); break;
 		case 2: k = std::string((size_t)c.range(1, 300), (char)('a' + i % 26)) + str(i % 7); break;
-		case 3: k = "k" + str(many ? i : c.range(0, 40)); break;
+		case 3:
+			k = "k" + str(many ? i : c.range(0, 40));
+			if (c.coin(40))
+				k += std::string(c.range(0, 26), (char)('a' + i % 26)); // every length: all tail cases of the hash
+			break;
 		default: {
 			k = c.bytes(1 + c.pickn(6));
 			for (auto &ch : k)
